@@ -3,6 +3,8 @@
 package zzverif
 
 import (
+	"regexp"
+
 	"github.com/jsightapi/jsight-schema-go-library/formats/json"
 	"github.com/jsightapi/jsight-schema-go-library/notations/jschema"
 	"github.com/jsightapi/jsight-schema-go-library/zzverif/gen"
@@ -585,3 +587,113 @@ func ZZC02UUID() {
 }
 
 func init() { ZZHarnesses["ZZC02UUID"] = ZZC02UUID }
+
+// c02RegexCases: schema example, the pattern as written in the schema (a JSON string body) and as RE2 reads it.
+var c02RegexCases = [][3]string{
+	{`"a/b"`, `^a/b$`, `^a/b$`},
+	{`"ABC"`, `^[A-Z]+$`, `^[A-Z]+$`},
+	{`"a b"`, `^a\\sb$`, `^a\sb$`},
+	{`"abcdef"`, `^.{6}$`, `^.{6}$`},
+	{`"xu0041"`, `u0041`, `u0041`},
+	{`"ab"`, `^..$`, `^..$`},
+	{`"bab"`, `a`, `a`},
+	{`"a\\b"`, `^a\\\\`, `^a\\`},
+}
+
+// c02RegexPieces: a piece of a document string as written and as decoded.
+var c02RegexPieces = [][2]string{
+	{`a`, `a`}, {`a`, `a`}, {`/`, `/`}, {`\/`, `/`}, {`b`, `b`}, {`\t`, "\t"}, {` `, ` `},
+	{`A`, `A`}, {`A`, `A`}, {`\\`, `\`}, {`B`, `B`}, {`u0041`, `u0041`}, {`BC`, `BC`},
+}
+
+// ZZC02Regex: the regex rule is an RE2 search in the decoded document string: strings written with
+// escape sequences (chosen piece by piece) against anchored, unanchored and class patterns; the
+// expected verdict is the standard library's on the decoded bytes.
+func ZZC02Regex() {
+	rc := c02RegexCases[v.Choose(0, len(c02RegexCases)-1)]
+	schema := rc[0] + ` // {regex: "` + rc[1] + `"}`
+	v.Observe("schema", schema)
+	s := jschema.New("s", schema)
+	v.Assert(s.Check() == nil, "C02/regex-schema-rejected")
+	n := v.Choose(1, v.Param("pieces", 2))
+	lit, dec := `"`, ""
+	for i := 0; i < n; i++ {
+		p := c02RegexPieces[v.Choose(0, len(c02RegexPieces)-1)]
+		lit += p[0]
+		dec += p[1]
+	}
+	lit += `"`
+	v.Observe("doc", lit)
+	want := regexp.MustCompile(rc[2]).MatchString(dec)
+	verr := s.Validate(json.New("d", lit))
+	if want {
+		v.Reach("C02/regex-accept")
+		v.Assert(verr == nil, "C02/regex-matching-string-rejected")
+	} else {
+		v.Reach("C02/regex-reject")
+		v.Assert(verr != nil, "C02/regex-non-matching-string-accepted")
+	}
+}
+
+// ZZC02Exp: numerals with an exponent (either letter case, any sign, with and without a fraction)
+// against an integer and a float example with min/max: a numeral whose value is integral is an
+// integer however it is written, and the bounds apply to the value.
+func ZZC02Exp() {
+	exInt := v.Choose(0, 1) == 0
+	schema := `20.5 // {min: 10, max: 30}`
+	if exInt {
+		schema = `20 // {min: 10, max: 30}`
+	}
+	v.Observe("schema", schema)
+	s := jschema.New("s", schema)
+	v.Assert(s.Check() == nil, "C02/exp-schema-rejected")
+	dg := func() byte {
+		c := v.Byte()
+		v.Assume('0' <= c && c <= '9')
+		return c
+	}
+	d1 := dg()
+	doc := []byte{d1}
+	m := int(d1-'0') * 10 // the mantissa in tenths
+	if v.Choose(0, 1) == 1 {
+		d2 := dg()
+		doc = append(doc, '.', d2)
+		m += int(d2 - '0')
+		if v.Choose(0, 1) == 1 {
+			doc = append(doc, '0')
+		}
+	}
+	marker := v.Byte()
+	v.Assume(marker == 'e' || marker == 'E')
+	doc = append(doc, marker)
+	sign := v.Choose(0, 2)
+	if sign == 1 {
+		doc = append(doc, '+')
+	} else if sign == 2 {
+		doc = append(doc, '-')
+	}
+	e := v.Choose(0, 2)
+	doc = append(doc, byte('0'+e))
+	if sign == 2 {
+		e = -e
+	}
+	v.Observe("doc", doc)
+	// value * 1000 = m * 10^(e+2)
+	scaled := m * []int{1, 10, 100, 1000, 10000}[e+2]
+	integral := scaled%1000 == 0
+	inRange := scaled >= 10000 && scaled <= 30000
+	want := inRange && (integral || !exInt)
+	verr := s.Validate(json.New("d", doc))
+	if want {
+		v.Reach("C02/exp-accept")
+		v.Assert(verr == nil, "C02/exp-admissible-value-rejected")
+	} else {
+		v.Reach("C02/exp-reject")
+		v.Assert(verr != nil, "C02/exp-inadmissible-value-accepted")
+	}
+}
+
+func init() {
+	ZZHarnesses["ZZC02Regex"] = ZZC02Regex
+	ZZHarnesses["ZZC02Exp"] = ZZC02Exp
+}
